@@ -27,8 +27,11 @@ def scenario_code(idx, lists, undefined, K, nested=None):
         o.append("    using method = M;")
     o.append("    static int fn(T&... a) { g_ran.clear(); (g_ran.push_back(T::idx), ...); return 0; }")
     o.append("};")
-    for u in undefined:
-        o.append("template<> struct definition<%s, %s> : not_defined {};" % (first, ", ".join("C<%d>" % c for c in u)))
+    for k, u in enumerate(undefined):
+        # an opted-out combination may still carry a function (a generic container that implements fn for every combination and
+        # opts some out through its base): it is the base not_defined that decides, not the presence of fn
+        body = "{}" if (idx + k) % 2 == 0 else "{ static int fn(%s) { g_ran.clear(); g_ran.push_back(-1); return -1; } }" % ", ".join("C<%d>&" % c for c in u)
+        o.append("template<> struct definition<%s, %s> : not_defined %s;" % (first, ", ".join("C<%d>" % c for c in u), body))
     o.append("using P = product<%s>;" % tl)
     o.append("use_definitions<definition, product<types<%s>, %s>> reg;" % (first, tl))
     o.append("void run() {")
